@@ -116,6 +116,11 @@ namespace
         std::map<std::thread::id, std::string> names;
     };
     gate* g_gate = nullptr;
+    std::atomic<long long> g_instr{ 0 };       // instructions executed so far (H3 instr_done)
+    void count_hook(verif::obs what, runtime&, size_t)
+    {
+        if (what == verif::obs::instr_done) { g_instr++; }
+    }
     void wait_turn(const std::string& who)
     {
         std::unique_lock<std::mutex> lock(g_gate->m);
@@ -155,6 +160,8 @@ static void cmd_ctlmt(const J& c)
     for (auto& s : c.at("schedule").a) { g.schedule.push_back(s.s); }
     g_gate = &g;
     verif::get().at_sync = &sync_hook;
+    g_instr = 0;
+    verif::get().observe = &count_hook;
     auto body = [&](std::string who, std::vector<std::string> calls) {
         {
             std::unique_lock<std::mutex> lock(g.m);
@@ -165,7 +172,7 @@ static void cmd_ctlmt(const J& c)
             wait_turn(who);          // beginning a call is a scheduling point too
             auto res = rt.execute(action_of(a));
             J e = ev("Ret");
-            e.set("t", who).set("a", a).set("res", result_name(res));
+            e.set("t", who).set("a", a).set("res", result_name(res)).set("instr", (long long)g_instr.load());
             emit(e);
         }
         std::unique_lock<std::mutex> lock(g.m);
@@ -182,8 +189,10 @@ static void cmd_ctlmt(const J& c)
     std::thread te(body, "E", ce), tc(body, "C", cc);
     te.join(); tc.join();
     verif::get().at_sync = nullptr;
+    verif::get().observe = nullptr;
     g_gate = nullptr;
     J f = ev("Final");
+    f.set("instr", (long long)g_instr.load());
     f.set("state", state_name(rt.runtime_state())).set("nctx", (long long)nctx(rt)).set("exitreq", rt.is_exit_requested());
     emit(f);
 }
